@@ -26,7 +26,7 @@ def concretise(chars, pattern="default", variant="A"):
             back[t] = "F"
             continue
         else:
-            t = {"A": "print(undef_%s)", "B": "v%s = = 1", "C": "def f%s(): return undef_%s", "D": "print(undef_same)"}[variant].replace("%s", ch)
+            t = {"A": "print((lambda p_%s: undef_%s)(1))", "B": "v%s = = 1", "C": "def f%s(): return undef_%s", "D": "print(undef_same)"}[variant].replace("%s", ch)
             text.append(t)
             back[t] = ch
             if variant == "D":
@@ -159,6 +159,10 @@ def replay_one(rec, pattern, variant):
                 for label in ("initialization_problem", "possible_initialization_problem"):
                     for issue in res.issues.get(label, []):
                         diags.append(("tifa", issue.location.line, issue.fields["name"]))
+                # (the parameter of the anonymous function on the same line is never used: located like everything else)
+                for issue in res.issues.get("unused_variable", []):
+                    if str(issue.fields.get("name", "")).startswith("p_"):
+                        diags.append(("tifa", issue.location.line, "undef_" + issue.fields["name"][2:]))
                 n1 = len(R.feedback)
                 SB.run(report=R)
                 for f in R.feedback[n1:]:
